@@ -120,7 +120,7 @@ def _cfg_inv(cfg, invs):
 
 
 def sphere_module(name, mode, lats=(0,), lons=(0,), times=(0,), radexp=(0,), timeexp=(0,),
-                  pointsets=(), values=(), stsets=()):
+                  pointsets=(), values=(), stsets=(), autobins=()):
     """MC wrapper of GeometrySphere.tla."""
     defs = {
         "McMode": '"%s"' % mode, "McLats": _tl(set(lats)), "McLons": _tl(set(lons)), "McTimes": _tl(set(times)),
@@ -128,10 +128,11 @@ def sphere_module(name, mode, lats=(0,), lons=(0,), times=(0,), radexp=(0,), tim
         "McPointSets": _tl([[list(p) for p in ps] for ps in pointsets]),
         "McValues": _tl([list(v) for v in values]),
         "McSTSets": _tl([dict(r=s["r"], te=s["te"], pts=[list(p) for p in s["pts"]]) for s in stsets]),
+        "McAutoBins": _tl([list(a) for a in autobins]),
     }
     mod = "---- MODULE %s ----\nEXTENDS GeometrySphere\n" % name + "".join("%s == %s\n" % kv for kv in defs.items()) + "====\n"
     cfg = ("CONSTANTS\n Mode <- McMode\n Lats <- McLats\n Lons <- McLons\n Times <- McTimes\n RadExp <- McRadExp\n"
-           " TimeExp <- McTimeExp\n PointSets <- McPointSets\n Values <- McValues\n STSets <- McSTSets\n"
+           " TimeExp <- McTimeExp\n PointSets <- McPointSets\n Values <- McValues\n STSets <- McSTSets\n AutoBins <- McAutoBins\n"
            "INIT Init\nNEXT Next\nINVARIANT AllChecks\n")
     return mod, cfg
 
@@ -693,44 +694,66 @@ def hist_jobs(sc, mode, scripts, tag):
 
 
 def check_fit_inside(col, idx, seed, temporal):
-    """Krige(fit_variogram=True) changes the model in place: the result must be the one of a kriging object built
-    with the fitted model (conditioning and target points in the coordinates of the CURRENT parameters)."""
+    """A variogram fit inside Krige changes the model in place (values not on the lattice): the result must be the one
+    of the CURRENT parameters, i.e. equal a kriging object built with the fitted model and equal the isotropic
+    computation at the fitted model's transformed positions.  Relation between implementation outputs."""
     import copy
 
     gs = _gs()
     rng = np.random.default_rng([seed, idx, 99])
-    d = 3 if temporal else int(rng.integers(2, 4))
-    n = 70
+    rotated = bool((idx // 2) % 2) and not temporal
+    via_setter = bool((idx // 4) % 2) if not temporal else bool((idx // 2) % 2)
+    d = 3 if temporal else (2 if rotated else int(rng.integers(2, 4)))
+    n = 80
     pos = rng.uniform(0, 20, (d, n))
-    truth = dict(len_scale=4.0, anis=[0.3, 1.0][: d - 1] if not temporal else [1.0, 0.3], var=1.0)
     if temporal:
-        gen = _mk_model("Exponential", {}, temporal=True, spatial_dim=2, **truth)
+        gen = _mk_model("Exponential", {}, temporal=True, spatial_dim=2, len_scale=4.0, anis=[1.0, 0.3])
         start = _mk_model("Exponential", {}, temporal=True, spatial_dim=2, len_scale=3.0, anis=[1.0, 0.8], angles=[0.3, 0.5, 0.2])
     else:
-        gen = _mk_model("Exponential", {}, dim=d, **truth)
-        start = _mk_model("Exponential", {}, dim=d, len_scale=3.0, anis=[0.8, 1.0][: d - 1], angles=0.0)
+        ang = ([0.5] if d == 2 else [0.4, 0.2, 0.1]) if rotated else 0.0
+        gen = _mk_model("Exponential", {}, dim=d, len_scale=4.0, anis=[0.3, 1.0][: d - 1], angles=ang)
+        start = _mk_model("Exponential", {}, dim=d, len_scale=3.0, anis=[0.8, 1.0][: d - 1], angles=ang)
     val = gs.SRF(gen, seed=int(rng.integers(1 << 30)), mode_no=64)(pos)
     before = np.array(start.anis, copy=True)
     K = gs.krige.Ordinary if idx % 2 else gs.krige.Simple
     try:
         with warnings.catch_warnings():
             warnings.simplefilter("ignore")
-            k1 = K(start, cond_pos=pos, cond_val=val, fit_variogram=True)
+            if via_setter:
+                k1 = K(start, cond_pos=pos, cond_val=val)
+                k1(pos[:, :3])                                   # the object has been used
+                k1.set_condition(fit_variogram=True)
+            else:
+                k1 = K(start, cond_pos=pos, cond_val=val, fit_variogram=True)
     except (RuntimeError, ValueError) as e:   # the optimiser did not converge on this data set: inconclusive
         col.notes.append("variogram fit failed on data set %d (%r): skipped" % (idx, e))
         return
     fitted = k1.model
-    k2 = K(copy.deepcopy(fitted), cond_pos=pos, cond_val=val)
+    cls = "%s:%s" % ("temporal" if temporal else ("rotated" if rotated else "spatial"), "set_condition" if via_setter else "constructor")
+    rp = {"kind": "fit-inside", "idx": idx, "seed": seed, "temporal": temporal, "rotated": rotated, "via_set_condition": via_setter,
+          "anis_before": before, "anis_after": fitted.anis}
+    what = "%s(fit_variogram=True via %s, anis %s -> %s)" % (K.__name__, "set_condition" if via_setter else "the constructor",
+                                                             before.tolist(), np.asarray(fitted.anis).tolist())
     tgt = rng.uniform(0, 20, (d, 25))
     f1, v1 = k1(tgt)
+    k2 = K(copy.deepcopy(fitted), cond_pos=pos, cond_val=val)
     f2, v2 = k2(tgt)
-    changed = not np.allclose(before, fitted.anis)
-    rp = {"kind": "fit-inside", "idx": idx, "seed": seed, "temporal": temporal, "anis_before": before, "anis_after": fitted.anis}
-    col.check(close(f1, f2, KTOL) and close(v1, v2, KTOL), "krige:fit_variogram:%s:current-parameters" % ("temporal" if temporal else "spatial"),
-              "Krige(fit_variogram=True) (anis %s -> %s) differs from Krige(<fitted model>): field %s, variance %s"
-              % (before.tolist(), np.asarray(fitted.anis).tolist(), maxdiff(f1, f2), maxdiff(v1, v2)), rp)
-    if changed:
-        col.nontrivial.add(("fit", temporal, idx))
+    col.check(close(f1, f2, KTOL) and close(v1, v2, KTOL), "krige:fit_variogram:%s:fitted-model" % cls,
+              "%s differs from Krige(<fitted model>): field %s, variance %s" % (what, maxdiff(f1, f2), maxdiff(v1, v2)), rp)
+    # the isotropic computation at the transformed positions of the fitted model
+    iso_kw = dict(len_scale=fitted.len_scale, var=fitted.var, nugget=fitted.nugget)
+    m_iso = _mk_model("Exponential", {}, temporal=True, spatial_dim=2, **iso_kw) if temporal else _mk_model("Exponential", {}, dim=d, **iso_kw)
+    k3 = K(m_iso, cond_pos=fitted.isometrize(pos), cond_val=val)
+    f3, v3 = k3(fitted.isometrize(tgt))
+    col.check(close(f1, f3, KTOL) and close(v1, v3, KTOL), "krige:fit_variogram:%s:isotropic-at-transformed" % cls,
+              "%s differs from the isotropic model at the fitted model's transformed positions: field %s, variance %s"
+              % (what, maxdiff(f1, f3), maxdiff(v1, v3)), rp)
+    c1 = gs.CondSRF(k1, seed=11, mode_no=8)(tgt)
+    c3 = gs.CondSRF(k3, seed=11, mode_no=8)(fitted.isometrize(tgt))
+    col.check(close(c1, c3, KTOL), "condsrf:fit_variogram:%s:isotropic-at-transformed" % cls,
+              "CondSRF on %s differs from the isotropic model at the fitted model's transformed positions by %s" % (what, maxdiff(c1, c3)), rp)
+    if not np.allclose(before, fitted.anis):
+        col.nontrivial.add(("fit", cls, idx))
     else:
         col.notes.append("fit did not change the anisotropy (idx %d)" % idx)
 
@@ -890,6 +913,14 @@ def run_c12(rep, tier, seed):
         rep.sample({"history_script": scripts[0], "spec_states": [s["cfg"] for s in sorted(hjobs[0][3], key=lambda x: x["step"])]})
         print("replayed %d scripted histories (%d states) in %.1fs" % (len(hjobs), sum(len(j[3]) for j in hjobs), time.time() - t0))
         rep.extra["history_scripts"] = len(hjobs)
+        # ---- in-place change by a variogram fit inside Krige (spatial anisotropic / rotated start models)
+        nfit = 24 if thorough else 8
+        for col in _run_pool(_work_fit, [([i], seed, False) for i in range(nfit)], procs):
+            _merge(rep, col)
+            for msg in col.notes:
+                rep.note(msg)
+        rep.traces += nfit
+        rep.extra["variogram_fits_inside_krige"] = nfit
         # ---- elementary rotations and helper functions
         col = _Collect()
         check_givens(col, read_dump(sc.path("giv.dump")))
@@ -1132,6 +1163,9 @@ def check_ll_general(col, idx, seed):
               "isometrize of a lat-lon model differs from latlon2pos(radius=geo_scale, time_scale=anis[-1])", rp)
 
 
+# automatic bins: (Mnum, Mden, bin_no): cut-off M = Mnum/Mden degrees; no integer distance lies on an edge
+AUTOBINS = [(937, 10, 10), (1813, 10, 12), (451, 10, 6)]
+
 LL_MODELS = [("Gaussian", {}), ("Exponential", {}), ("Matern", {"nu": 1.5}), ("Stable", {"alpha": 1.2})]
 
 
@@ -1174,6 +1208,47 @@ def check_gc_set(col, k, fam, pts, vals, s, tier):
         col.check(close(gam, exp_gam, KTOL), "vario_estimate:latlon:%s:gamma" % fam,
                   "variogram values per integer-degree bin (geo_scale %s) differ from the spec (max %s)" % (sname, maxdiff(gam, exp_gam)),
                   dict(rp, geo_scale=sc, clause="gamma"))
+    # automatic bins (bin_edges=None): user cut-off max_dist and bin_no in the unit of geo_scale; bin_no alone
+    from gstools.variogram import standard_bins
+
+    iu = [(i, j) for i in range(n) for j in range(i + 1, n)]
+    for sname, sc in _scales():
+        unit = (math.pi / 180.0) * sc
+        for ai, (mn, md, nb) in enumerate(AUTOBINS):
+            if not o["noedge"][ai]:
+                continue        # an integer distance lies exactly on an edge: boundary, either bin
+            mdeg = mn / md
+            bc, gam, cnt = gs.vario_estimate((lat, lon), fld, latlon=True, geo_scale=sc, bin_no=nb, max_dist=mdeg * unit, return_counts=True)
+            exp_c = np.array([(b + 0.5) * mdeg / nb for b in range(nb)]) * unit
+            sb = standard_bins((lat, lon), latlon=True, geo_scale=sc, bin_no=nb, max_dist=mdeg * unit)
+            a_cnt = np.array([float(x[0]) for x in o["auto"][ai]])
+            a_gam = np.array([x[1] / (2.0 * x[0]) if x[0] else 0.0 for x in o["auto"][ai]])
+            r2 = dict(rp, geo_scale=sc, bin_no=nb, max_dist_deg=mdeg, clause="automatic bins")
+            col.check(close(bc, exp_c, TOL * sc) and close(bc, (sb[:-1] + sb[1:]) / 2.0, TOL * sc), "vario_estimate:latlon:auto-bins:centres",
+                      "automatic bins (geo_scale %s, bin_no=%d, max_dist=%s deg): centres %s... instead of %s... (standard_bins: %s...)"
+                      % (sname, nb, mdeg, np.asarray(bc)[:3].tolist(), exp_c[:3].tolist(), ((sb[:-1] + sb[1:]) / 2.0)[:3].tolist()), r2)
+            col.check(close(cnt, a_cnt, 0.0) and close(gam, a_gam, KTOL), "vario_estimate:latlon:auto-bins:%s:counts" % fam,
+                      "automatic bins (geo_scale %s, bin_no=%d, max_dist=%s deg): counts %s, the spec's great-circle distances regrouped "
+                      "into these bins give %s" % (sname, nb, mdeg, np.asarray(cnt).astype(int).tolist(), a_cnt.astype(int).tolist()), r2)
+        # bin_no alone: the cut-off comes from the data (implementation's standard_bins); the spec distances are regrouped
+        nb = 7
+        sb = standard_bins((lat, lon), latlon=True, geo_scale=sc, bin_no=nb)
+        zs = [dist[i, j] * unit for i, j in iu]
+        if all(abs(z - e) > 1e-7 * sc for z in zs for e in sb):
+            bc, gam, cnt = gs.vario_estimate((lat, lon), fld, latlon=True, geo_scale=sc, bin_no=nb, return_counts=True)
+            e_cnt = np.zeros(nb)
+            e_ss = np.zeros(nb)
+            for (i, j), z in zip(iu, zs):
+                for b in range(nb):
+                    if sb[b] <= z < sb[b + 1]:
+                        e_cnt[b] += 1
+                        e_ss[b] += (fld[i] - fld[j]) ** 2
+            e_gam = np.array([e_ss[b] / (2 * e_cnt[b]) if e_cnt[b] else 0.0 for b in range(nb)])
+            col.check(close(bc, (sb[:-1] + sb[1:]) / 2.0, TOL * sc) and close(cnt, e_cnt, 0.0) and close(gam, e_gam, KTOL),
+                      "vario_estimate:latlon:auto-bins:%s:data-cutoff" % fam,
+                      "automatic bins (geo_scale %s, bin_no=%d): centres / counts %s differ from standard_bins' classes filled with the "
+                      "spec's great-circle distances %s" % (sname, nb, np.asarray(cnt).astype(int).tolist(), e_cnt.astype(int).tolist()),
+                      dict(rp, geo_scale=sc, bin_no=nb, clause="automatic bins, data cut-off"))
     # Yadrenko functions and chordal distances
     name, kw = LL_MODELS[k % len(LL_MODELS)]
     sname, sc = _scales()[k % 4]
@@ -1448,7 +1523,7 @@ def run_c13(rep, tier, seed):
         scripts = gen_scripts(rng, 90 if thorough else 30, True, 8 if thorough else 5)
         jobs.append(hist_tlc_job(sc, "tmp", scripts, "hist"))
         add_sph("ll", "ll", lats=(-90, 0, 90), lons=range(-360, 541, 90), times=(-1, 0, 3), radexp=(-1, 0, 1), timeexp=(-1, 0, 1))
-        add_sph("gc", "gc", pointsets=[p for _f, p, _v in gcsets], values=[v for _f, _p, v in gcsets])
+        add_sph("gc", "gc", pointsets=[p for _f, p, _v in gcsets], values=[v for _f, _p, v in gcsets], autobins=AUTOBINS)
         add_sph("oct", "oct", pointsets=octsets, values=[[0] * len(p) for p in octsets])
         add_sph("st", "st", stsets=stsets)
         t0 = time.time()
@@ -1461,7 +1536,7 @@ def run_c13(rep, tier, seed):
             _merge(rep, col)
         nfit = 12 if thorough else 4
         fitnotes = []
-        for col in _run_pool(_work_fit, [([i], seed, bool(i % 2)) for i in range(nfit)], procs):
+        for col in _run_pool(_work_fit, [([i], seed, True) for i in range(nfit)], procs):
             _merge(rep, col)
             fitnotes += col.notes
         for msg in fitnotes:
